@@ -95,6 +95,9 @@ func c13Scenarios() []goxScenario {
 		goxScenario{Name: "load-jsonl", Files: map[string]string{"j.jsonl": "{\"a\":1}\n{\"a\":2}\n{\"a\":3}\n{\"a\":4}\n"}, SQL: "SELECT COUNT(*) FROM j", CPU: 2},
 		goxScenario{Name: "correlated-subquery", Files: map[string]string{"t.csv": big}, SQL: "SELECT a FROM t WHERE EXISTS (SELECT 1 FROM t z WHERE z.g = t.g AND z.a < t.a)", CPU: 3},
 		goxScenario{Name: "error-in-two-records", Files: map[string]string{"t.csv": big}, SQL: "SELECT a, 10 / (b - 3) FROM t", CPU: 3},
+		// built-in functions that keep process-wide state (random source, compiled-pattern, JSON-query and time-zone caches), one call per record on every worker
+		goxScenario{Name: "functions-with-process-wide-state", Files: map[string]string{"t.csv": big},
+			SQL: "SELECT a, RAND() >= 0, RAND(1, 1 + a) > 0, REGEXP_MATCH(g, 'k[0-9]'), REGEXP_REPLACE(g, '[0-9]', 'x'), JSON_VALUE('a', '{\"a\":1}'), DATETIME_FORMAT(DATETIME('2012-02-03 04:05:06 +09:00'), '%Y'), NOW() IS NOT NULL, TRUNC_TIME(DATETIME('2012-02-03 04:05:06')) IS NOT NULL FROM t", CPU: 3},
 		goxScenario{Name: "user-function-per-row", Files: map[string]string{"t.csv": big}, SQL: "DECLARE f FUNCTION (@x) AS BEGIN VAR @y := @x * 2; RETURN @y + 1; END; SELECT a, f(a) FROM t;", CPU: 3},
 	)
 	return sc
